@@ -466,7 +466,7 @@ PROPERTY = {
                    "the gate list; gates well-formed and unshared) is established by the constructor and re-established by every operation, and "
                    "read-only operations have an empty frame. Gate.__init__ is proved for ALL integer index values (symbolic indices, z3). The "
                    "operations are executed from their real AST on every enumerated small circuit and every 1- and 2-step history over 22 "
-                   "operations; the induction over longer histories is the standard invariant argument.",
+                   "operations; the induction over longer histories is the standard invariant argument. Unbounded: add_gate on ANY circuit (P2, ghost containers), the constructor as fold of add_gate over ANY gate list (P4), copy / + / * for any lengths and every integer factor (P5-P7, ghost sequences, the constructor as callee contract).",
     "bounds": {"quick": "base circuits of <= 3 gates over 10 gate kinds (controlled, multi-controlled, variational, string parameter, MEASURE), fixed width none/3/4/5/6; histories of length 1-2",
                "thorough": "all pairs, more triples"},
     "assumptions": ["cirq / sympy constructors executed natively (assumed not to mutate Tangelo objects)",
